@@ -1063,6 +1063,11 @@ pub fn peer_receiver(seed: u64, family: &str, variant: u8) -> Scenario {
         opts.mtu_probe_retx = Some(r.below(3) as usize);
     }
     let total = if variant == 4 { r.log_range(1, 300_000) } else { r.log_range(1, 60_000) };
+    // keep the number of segments per run in the low thousands (tiny rings make tiny segments)
+    let seg_cap = (opts.tx_init().max(opts.tx_max())).min(mss).max(16) as u64;
+    let total = total.min(1500 * seg_cap);
+    // tiny rings degenerate into one-byte segments: keep the sequence space far from a full turn
+    let total = if opts.tx_init().max(opts.tx_max()) < 2000 { total.min(20_000) } else { total };
     let mut w = if variant == 3 {
         // many small writes with pauses
         let mut v = vec![];
@@ -1104,6 +1109,8 @@ pub fn peer_receiver(seed: u64, family: &str, variant: u8) -> Scenario {
         2 => r.log_range(1, 2 * mss as u64) as u32,
         _ => r.log_range(1000, 1 << 20) as u32,
     };
+    // a window of a few bytes turns the whole stream into that many packets: bound the count
+    let wnd = wnd.max((total / 15_000) as u32 + 1);
     if r.chance(0.3) && variant != 2 {
         auto.rx_model = Some(RxModel { buf: r.log_range(mss as u64, 40 * mss as u64) as u32, drain_per_ms: if r.chance(0.5) { 0 } else { r.log_range(1, 2000) as u32 } });
     }
